@@ -1,8 +1,9 @@
 """Binding of spec/Imports.tla scenarios to the real rsjsonnet binary (property C13).
 
 A scenario (one CASE line of MC_Imports) carries the modelled file system, the -J list,
-the path of the main file and what the specification says must happen.  This module
-materialises the tree, runs the binary and compares.
+the path of the main file, the code-file options (--ext-code-file / --tla-code-file) and
+what the specification says must happen.  This module materialises the tree, runs the
+binary and compares.
 
 Path convention of the specification: a path is a list of components; the component
 "/" in first position marks an absolute path and stands for the root of the tree."""
@@ -32,20 +33,30 @@ def as_map(lst):
     return {tuple(x["p"]): x["v"] for x in lst}
 
 
+OPT_FLAG = {"ext": "--ext-code-file", "tla": "--tla-code-file"}
+
+
 def stmt_expr(st, root):
-    e = f'{KW[st["kind"]]} {json.dumps(render_path(st["sp"], root))}'
+    if st["kind"] == "ext":        # the value bound by --ext-code-file <name>=...
+        e = f'std.extVar({json.dumps(st["sp"][0])})'
+    elif st["kind"] == "tla":      # the value bound by --tla-code-file <name>=...: a parameter
+        e = st["sp"][0]
+    else:
+        e = f'{KW[st["kind"]]} {json.dumps(render_path(st["sp"], root))}'
     if st["chain"]:
         e = "(" + e + ")" + ".lazy" * st["chain"]
     return e
 
 
-def code_text(entry, root):
+def code_text(entry, root, params=()):
     """Text of a generated library file and the line of each of its import statements.
 
     The body prints TRACE: T<tag> exactly once per evaluation of the file; `eager` is
     visible (forced by manifestation), `lazy` hidden (forced only by `.lazy`); a strict
-    file forces every eager import before it yields its value."""
-    lines = ["local e = ["]
+    file forces every eager import before it yields its value.  `params`: the main file
+    of a run with top-level arguments is a function of them with the same body."""
+    lines = [f"function({', '.join(params)})"] if params else []
+    lines.append("local e = [")
     where = {}
     for i, st in enumerate(entry["eager"]):
         lines.append("  " + stmt_expr(st, root) + ",")
@@ -68,6 +79,7 @@ class Tree:
         self.case = case
         self.root = root
         self.fs = as_map(case["fs"])
+        self.opts = case.get("opts", [])
         self.texts = {}
         self.where = {}
 
@@ -79,11 +91,12 @@ class Tree:
         for p, e in items:
             if e["t"] == "dir" and p:
                 os.makedirs(os.path.join(root, *p), exist_ok=True)
+        params = [o["var"] for o in self.opts if o["route"] == "tla"]
         for p, e in items:
             full = os.path.join(root, *p)
             if e["t"] == "file":
                 if e["code"]:
-                    text, where = code_text(e, root)
+                    text, where = code_text(e, root, params if p == self.main_node() else ())
                     self.texts[p] = text
                     self.where[p] = where
                     data = text.encode("ascii")
@@ -98,6 +111,8 @@ class Tree:
         cmd = [binary]
         for j in self.case["jp"]:
             cmd += ["-J", render_path(j, self.root)]
+        for o in self.opts:
+            cmd += [OPT_FLAG[o["route"]], o["var"] + "=" + render_path(o["path"], self.root)]
         cmd.append(render_path(self.case["main"], self.root))
         return cmd
 
@@ -241,7 +256,18 @@ def compare(tree, out):
             bad.append(("load-count", f"file tagged T{tag} evaluated {n} time(s) before the failure, "
                                       f"specification says at most {loads.get(tag, 0)}"))
     err = case["err"]
-    if err["class"] in ("notfound", "isdir"):
+    if err["class"] in ("notfound", "isdir") and not err["file"]:
+        # a code-file option that names no readable file: reported before anything runs,
+        # naming the path as it was spelled; there is no source location to point at
+        spelled = render_path(err["sp"], tree.root)
+        if spelled not in out["stderr"]:
+            bad.append(("error-not-naming-option", f"stderr does not mention the code file {spelled!r}: "
+                                                   f"{out['stderr'][:300]}"))
+        sites = SITE_RE.findall(out["stderr"])
+        if sites:
+            bad.append(("error-not-before-run", f"a source location {sites[0]} is reported although the "
+                                                f"failure precedes any evaluation"))
+    elif err["class"] in ("notfound", "isdir"):
         spelled = render_path(err["sp"], tree.root)
         if spelled not in out["stderr"]:
             bad.append(("error-not-naming-import", f"stderr does not mention the imported path {spelled!r}: "
